@@ -44,7 +44,7 @@ def canonical_value(rng: random.Random, kind: str, style: int = 0) -> str:
     if kind == "date":
         return f"{rng.randint(1900, 2100):04d}-{rng.randint(1, 12):02d}-{rng.randint(1, 28):02d}" + _tz(rng)
     if kind == "time":
-        frac = rng.choice(["", "", ".5", ".125"])
+        frac = rng.choice(["", "", ".500", ".125"])
         return f"{rng.randint(0, 23):02d}:{rng.randint(0, 59):02d}:{rng.randint(0, 59):02d}{frac}" + _tz(rng)
     if kind == "dateTime":
         return (
@@ -106,7 +106,7 @@ def gen_decl(rng, names: Names, depth: int, parent_ns, opts) -> dict:
     for _ in range(rng.randint(1, 4)):
         if rng.random() < opts.get("group", 0.25):
             items = [gen_decl(rng, names, depth + 1, ns, opts) for _ in range(rng.randint(2, 3))]
-            parts.append({"t": "group", "items": items, "min": 1, "max": 3})
+            parts.append({"t": "group", "items": items, "min": opts.get("group_min", 1), "max": 3})
         else:
             d = gen_decl(rng, names, depth + 1, ns, opts)
             mn = 0 if rng.random() < 0.3 else 1
@@ -130,7 +130,7 @@ def qn(ns, name):
     return f"{{{ns}}}{name}" if ns else name
 
 
-def instance(rng, d: dict) -> dict:
+def instance(rng, d: dict, rep_min: int = 1) -> dict:
     """one element of the document: {"q","t","l","a","c"} (text/tail None when absent)"""
     el = {"q": qn(d["ns"], d["name"]), "t": None, "l": None, "a": [], "c": []}
     for a in d.get("attrs", []):
@@ -149,17 +149,19 @@ def instance(rng, d: dict) -> dict:
         words = ["some ", "text, ", "more", " and ", "end."]
         el["t"] = rng.choice(words)
         for _ in range(rng.randint(1, 3)):
-            k = instance(rng, rng.choice(d["inline"]))
+            k = instance(rng, rng.choice(d["inline"]), rep_min)
             k["l"] = rng.choice(words)
             el["c"].append(k)
     else:
         for p in d["parts"]:
             if p["t"] == "el":
                 n = rng.randint(p["min"], p["max"])
-                el["c"].extend(instance(rng, p["decl"]) for _ in range(n))
+                if p["max"] > 1 and n == 1 and rep_min > 1:
+                    n = rep_min  # a repeatable child repeats wherever it appears
+                el["c"].extend(instance(rng, p["decl"], rep_min) for _ in range(n))
             else:
                 for _ in range(rng.randint(p["min"], p["max"])):
-                    el["c"].extend(instance(rng, it) for it in p["items"])
+                    el["c"].extend(instance(rng, it, rep_min) for it in p["items"])
     return el
 
 
@@ -325,19 +327,19 @@ def json_scalar(rng, kind, style):
     return rng.choice(["12", "007", "true", "alpha", "1.5", "2020-01-01"])
 
 
-def json_instance(rng, model) -> dict:
+def json_instance(rng, model, null_arrays=True) -> dict:
     out = {}
     for f in model["fields"]:
         if f["optional"] and rng.random() < 0.4:
             continue
-        if f["nullable"] and rng.random() < 0.4:
+        k = f["kind"]
+        if f["nullable"] and rng.random() < 0.4 and (null_arrays or not k.startswith("arr_")):
             out[f["name"]] = None
             continue
-        k = f["kind"]
         if k == "obj":
-            out[f["name"]] = json_instance(rng, f["model"])
+            out[f["name"]] = json_instance(rng, f["model"], null_arrays)
         elif k == "arr_obj":
-            out[f["name"]] = [json_instance(rng, f["model"]) for _ in range(rng.randint(0, 3))]
+            out[f["name"]] = [json_instance(rng, f["model"], null_arrays) for _ in range(rng.randint(0, 3))]
         elif k.startswith("arr_"):
             out[f["name"]] = [json_scalar(rng, k[4:], f["style"]) for _ in range(rng.randint(0, 3))]
         else:
